@@ -1,5 +1,5 @@
 """Per-property policy: which rules decide which clause, floors, scope, wording for the evidence."""
-from . import rules_conv, rules_table, rules_codec, rules_layout, rules_effect, rules_path, rules_reply, rules_cow, rules_node
+from . import rules_conv, rules_table, rules_codec, rules_layout, rules_effect, rules_path, rules_reply, rules_cow, rules_node, rules_ref
 
 import json, os
 
@@ -201,6 +201,27 @@ PROPS = {
             {"run": rules_node.run_destroy_guard, "floor": 4},
             {"run": rules_path.run_uaf, "floor": 5, "use_anchor_files": True},
             {"run": rules_path.run_allocpolarity, "floor": 5, "use_anchor_files": True},
+        ],
+    },
+    "C15": {
+        "explanation": "REFWRITE: every store to refcount::_val in the program is in the refcount primitives or a positive-constant initialisation. REFSHAPE: interval analysis of "
+                       "mpt_refcount_raise/lower with a ghost net-change counter as trace partition: the counter is only changed while known non-zero, a kept increment returns "
+                       "non-zero, every other exit returns the failure value with no net change (overflow is undone). UNREFIMPL: for every vtable whose addref slot raises a counter, "
+                       "the unref slot's teardown calls are dominated by the test of mpt_refcount_lower() and unreachable from its 'references remain' edge. REFREPLACE: a value "
+                       "loaded from a reference slot that is then overwritten is only ever unref'ed; addref results are tested. UAF/NULLCONTRA on the anchor files.",
+        "not_decided": "'destroyed exactly when the last reference is dropped' over histories spanning several functions; C++ reference<T> beyond UAF/REFWRITE",
+        "assumptions": [],
+        "technique": "who-may-write enumeration, interval analysis with ghost counters (trace partitioning), dominator/reachability check on vtable-resolved unref implementations",
+        "level_text": "Decides the counter discipline: the only code that changes a count is raise/lower, their overflow/zero behaviour is proved on all paths, and every counted "
+                      "object kind tears down only at zero (8 kinds); replacement sites release the old referent.",
+        "level_note": "vtable slots are resolved from static initialisers; counted kinds are those whose addref implementation calls the raise primitive",
+        "rules": [
+            {"run": rules_ref.run_refwrite, "floor": 10},
+            {"run": rules_ref.run_refshape, "floor": 6},
+            {"run": rules_ref.run_unrefimpl, "floor": 6},
+            {"run": rules_ref.run_refreplace, "floor": 3, "use_anchor_files": True},
+            {"run": rules_path.run_uaf, "floor": 3, "use_anchor_files": True},
+            {"run": rules_path.run_nullcontra, "floor": 30, "use_anchor_files": True},
         ],
     },
 }
